@@ -347,7 +347,17 @@ func runC20(e *Engine, r *Report) {
 			if p, ok := rg.X.(*ssa.Parameter); ok {
 				return argFields(p)
 			}
-			return nil
+			// an element of a local slice of maps (`for _, m := range []map..{a, b, c}`)
+			var out []string
+			e.dependsOn(rg.X, func(v ssa.Value) bool {
+				if f, _, ok := loadedField(v); ok {
+					if _, isMap := f.Type().Underlying().(*types.Map); isMap {
+						out = append(out, f.Name())
+					}
+				}
+				return false
+			}, 0)
+			return out
 		}
 		isRemovedMap := func(m ssa.Value) bool {
 			if f, _, ok := loadedField(m); ok {
